@@ -18,17 +18,20 @@ InputOf(r) == [c \in 1..9 |-> IF c = 1 THEN r.input ELSE <<>>]
 
 \* fold over the logged steps; acc = [s, k, bad]
 StepAcc(input, acc, st) ==
-  IF acc.bad # "" THEN acc
+  IF acc.bad # "" \/ acc.mix THEN acc
   ELSE LET t == Step(acc.s, input) IN
-       IF t.st = "undef" THEN [acc EXCEPT !.bad = "executed an instruction the ISA leaves undefined: " \o t.why, !.k = @ + 1]
+       \* a file stream used in both directions is left undefined by HexISA (chanmix) but nothing in the machine can refuse it:
+       \* the rest of such a run is outside the definition and is not judged
+       IF t.st = "undef" /\ t.why = "chanmix" THEN [acc EXCEPT !.mix = TRUE]
+       ELSE IF t.st = "undef" THEN [acc EXCEPT !.bad = "executed an instruction the ISA leaves undefined: " \o t.why, !.k = @ + 1]
        ELSE IF <<Instr(acc.s), t.pc, t.a, t.b, t.o>> # <<st[1], st[2], st[3], st[4], st[5]>>
             THEN [acc EXCEPT !.bad = "registers differ after instruction", !.k = @ + 1]
-       ELSE [s |-> t, k |-> acc.k + 1, bad |-> ""]
+       ELSE [s |-> t, k |-> acc.k + 1, bad |-> "", mix |-> FALSE]
 
 Judge(r) ==
   LET input == InputOf(r)
       m0 == MemOf(r.img)
-      f == FoldLeft(LAMBDA a, x : StepAcc(input, a, x), [s |-> State0(m0), k |-> 0, bad |-> ""], r.steps)
+      f == FoldLeft(LAMBDA a, x : StepAcc(input, a, x), [s |-> State0(m0), k |-> 0, bad |-> "", mix |-> FALSE], r.steps)
       t == f.s
       stdout == SelectSeq(t.out, LAMBDA e : e[1] = 0)
       files  == SelectSeq(t.out, LAMBDA e : e[1] # 0)
@@ -39,6 +42,7 @@ Judge(r) ==
       next == Step(t, input)
   IN
   IF f.bad # "" THEN [id |-> r.id, v |-> "bad", why |-> f.bad, at |-> f.k, n |-> f.k]
+  ELSE IF f.mix THEN [id |-> r.id, v |-> "ok-undef", why |-> "chanmix", at |-> f.k, n |-> f.k]
   ELSE IF r.status = "throw" THEN
        (IF next.st = "undef" /\ next.why \in {"opcode", "opr", "svc"} THEN [id |-> r.id, v |-> "ok-undef", why |-> next.why, at |-> f.k, n |-> f.k]
         ELSE [id |-> r.id, v |-> "bad", why |-> "threw where the ISA defines a step", at |-> f.k, n |-> f.k])
